@@ -488,6 +488,10 @@ func convMapToTarget(source interface{}, target reflect.Type) (interface{}, erro
 		if err != nil {
 			return nil, err
 		}
+		if evalue == nil {
+			result.SetMapIndex(k, reflect.Zero(target.Elem()))
+			continue
+		}
 		result.SetMapIndex(k, reflect.ValueOf(evalue))
 	}
 	return result.Interface(), nil
@@ -503,6 +507,10 @@ func convArrayTypeToTarget(source interface{}, target reflect.Type) (interface{}
 		evalue, err := convTypeToTarget(sourceValue.Index(i).Interface(), target.Elem())
 		if err != nil {
 			return nil, err
+		}
+		if evalue == nil {
+			sliceValue = reflect.Append(sliceValue, reflect.Zero(target.Elem()))
+			continue
 		}
 		sliceValue = reflect.Append(sliceValue, reflect.ValueOf(evalue))
 	}
